@@ -169,6 +169,9 @@ func registry() map[string]PropSpec {
 			{Pkg: ".", Name: "c17_dictionary", Quick: map[string]int{"words": 1}, Thorough: map[string]int{"words": 2}, Unwind: [2]int{128, 160}, Budget: [2]int{120, 1500},
 				Models: []string{"net/url.Parse=vpModelURLParse", "path.Join=vpModelPathJoin"},
 				What:   "same oracle on sources assembled from symbolic pieces and the string constants found in FullSource's current SSA (a dictionary that follows the code: suffixes, hosts, separators), so inputs far longer than the byte bound that contain the code's own magic strings are covered"},
+			{Pkg: ".", Name: "c17_history", Quick: map[string]int{"calls": 300}, Thorough: map[string]int{"calls": 1200}, Unwind: [2]int{128, 128},
+				Models: []string{"net/url.Parse=vpModelURLParse", "path.Join=vpModelPathJoin"},
+				What:   "FullSource has no memory: five probe sources (bare, org/name, canonical, path, URL) give the same answer, and canonical forms stay fixed points, after n other distinct sources were canonicalised in the same process, n next to each integer constant of plugin.go / plugins.go (current SSA) and `calls`"},
 			{Pkg: ".", Name: "tv_fullsource", Quick: map[string]int{}, Unwind: [2]int{128, 128},
 				Models: []string{"net/url.Parse=vpModelURLParse", "path.Join=vpModelPathJoin"},
 				What:   "translator validation: the repository's own TestPluginFullSource table, concrete, through the engine and the models"},
@@ -207,8 +210,10 @@ func registry() map[string]PropSpec {
 		Harnesses: []HSpec{
 			{Pkg: "ordered", Name: "c08_decode_order", Quick: map[string]int{"entries": 3}, Thorough: map[string]int{"entries": 5}, Unwind: [2]int{32, 48},
 				What: "DecodeYAML, Map[string,string].UnmarshalOrdered, MarshalJSON and MarshalYAML keep document order for every key set (0-2-byte keys incl. the empty key)"},
-			{Pkg: "ordered", Name: "c08_roundtrip", Quick: map[string]int{"entries": 3, "ops": 1}, Thorough: map[string]int{"entries": 4, "ops": 2}, Unwind: [2]int{32, 48},
-				What: "a programmatically built ordered map (Set of up to `entries` keys, nested one level, then up to `ops` Delete/Replace operations that leave tombstoned slots at the front, middle or end) survives json.Marshal -> yaml.Unmarshal -> DecodeYAML and MarshalYAML -> DecodeYAML with keys, values and order (ordered.Equal)"},
+			{Pkg: "ordered", Name: "c08_roundtrip", Quick: map[string]int{"entries": 3, "ops": 0}, Thorough: map[string]int{"entries": 4, "ops": 0}, Unwind: [2]int{32, 48},
+				What: "content variety: a programmatically built ordered map (Set of up to `entries` symbolic keys of 0-2 bytes, values nested one level) survives json.Marshal -> yaml.Unmarshal -> DecodeYAML and MarshalYAML -> DecodeYAML with keys, values and order (ordered.Equal, member keys of the JSON object)"},
+			{Pkg: "ordered", Name: "c08_roundtrip", Quick: map[string]int{"entries": 4, "ops": 2}, Thorough: map[string]int{"entries": 4, "ops": 3}, Unwind: [2]int{32, 48}, Budget: [2]int{120, 1500},
+				What: "history variety: four entries, then up to `ops` Delete, Replace (onto existing keys, or with an absent old key) and Set (fresh or existing key) operations followed against a list-of-pairs model of what was built: the map has the model's keys, values, order and lookups, and survives both encode -> decode legs"},
 			{Pkg: "ordered", Name: "c08_exotic_keys", Quick: map[string]int{}, Unwind: [2]int{32, 48},
 				What: "an ordered map (one level nested) whose keys are 1-2 symbolic bytes over the whole of \\x01-\\x7f (quotes, backslashes, control characters, DEL): json.Marshal succeeds (text written by MarshalJSON is read with the JSON string grammar, as encoding/json validates it), the object has exactly those keys in order, and the YAML node leg gives an Equal map"},
 			{Pkg: "ordered", Name: "c07_merge_chain", Quick: map[string]int{"typedkeys": 0}, Unwind: [2]int{32, 32},
